@@ -466,6 +466,18 @@ func runC11(c *core.Ctx) {
 			{gen.Book{{Name: "r01", Ents: []gen.Ent{x("s1")}}, {Name: "s1", Ents: []gen.Ent{x("s2")}}, {Name: "s2", Ents: []gen.Ent{x("s3")}}, {Name: "s3", Ents: []gen.Ent{x("x")}}, {Name: "s1", Ents: []gen.Ent{x("x")}, Notes: note}}, "long chain only through a superseded declaration"},
 			{gen.Book{{Name: "r01", Ents: []gen.Ent{x("s1")}}, {Name: "s1", Ents: []gen.Ent{x("x")}}, {Name: "s1", Ents: []gen.Ent{x("r01")}}}, "later declaration closes a cycle"},
 		}
+		// references written on two rows whose amounts cancel: still references (the limit is about the chain, not
+		// about the amounts that come through it)
+		m := func(n string, k int) gen.Ent { return gen.Ent{Name: n, Val: gen.Half(2 * k)} }
+		superseded = append(superseded, []struct {
+			b     gen.Book
+			label string
+		}{
+			{gen.Book{{Name: "r01", Ents: []gen.Ent{m("batter", 1), m("batter", -1), x("x")}}, {Name: "batter", Ents: []gen.Ent{x("r01")}}}, "cycle through a reference written on two rows that cancel"},
+			{gen.Book{{Name: "r01", Ents: []gen.Ent{m("r01", 2), x("x"), m("r01", -2)}}}, "self-reference on two rows that cancel"},
+			{gen.Book{{Name: "r01", Ents: []gen.Ent{m("s1", 1), m("s1", -1)}}, {Name: "s1", Ents: []gen.Ent{x("s2")}}, {Name: "s2", Ents: []gen.Ent{x("s3")}}, {Name: "s3", Ents: []gen.Ent{x("x")}}}, "chain of 4 through a reference written on two rows that cancel"},
+			{gen.Book{{Name: "r01", Ents: []gen.Ent{x("s1")}}, {Name: "s1", Ents: []gen.Ent{m("s2", 3), m("x", 1), m("s2", -3)}}, {Name: "s2", Ents: []gen.Ent{x("r01")}}}, "3-cycle through cancelling rows in the middle"},
+		}...)
 		for _, sp := range superseded {
 			for _, n := range []int{3, 10} {
 				cases = append(cases, cli{b: sp.b, n: n, via: "flag", cmd: cmds[0], label: fmt.Sprintf("%s, limit %d", sp.label, n), ordered: true})
